@@ -316,3 +316,20 @@ fn prometheus_to_io_error(e: prometheus::Error) -> io::Error {
         e => io::Error::new(ErrorKind::Other, e.to_string()),
     }
 }
+
+/// Doors for the verification harness (see `verif_hooks.rs`). Adapters only.
+#[cfg(feature = "verif")]
+impl Metrics {
+    pub(crate) fn verif_collect(&self) -> (String, Bytes) {
+        self.collect()
+    }
+}
+
+#[cfg(feature = "verif")]
+pub(crate) async fn verif_handle_request(
+    context: Arc<core::Context>,
+    io: TcpStream,
+    log_id: log_utils::IdChain<u64>,
+) {
+    handle_request(context, io, log_id).await
+}
